@@ -21,6 +21,28 @@ type featCase struct {
 
 func (f *featCase) render() string {
 	var sb strings.Builder
+	if f.Family == "aliasres" {
+		switch f.File {
+		case "editions":
+			sb.WriteString("edition = \"2023\";\n")
+		default:
+			sb.WriteString("syntax = \"" + f.File + "\";\n")
+		}
+		sb.WriteString("package a;\nenum Color {\n")
+		if f.Inner == "alias" {
+			sb.WriteString("  option allow_alias = true;\n")
+		}
+		sb.WriteString("  COLOR_A = 0;\n  COLOR_B = 1;\n")
+		if f.Inner == "alias" {
+			sb.WriteString("  COLOR_C = 1;\n")
+		}
+		n := 8
+		if f.Trigger {
+			n = 6
+		}
+		fmt.Fprintf(&sb, "  COLOR_D = %d;\n  reserved 5 to 7;\n}\n", n)
+		return sb.String()
+	}
 	sb.WriteString("edition = \"2023\";\npackage a;\n")
 	feature := map[string]string{"json": "json_format", "enumtype": "enum_type", "presence": "field_presence"}[f.Family]
 	if f.File != "" {
